@@ -12,7 +12,7 @@ From Arche Require Import Model.Base Model.Pool Model.Filter Model.World Model.O
   Proofs.Atomic Proofs.Frame Proofs.StepFrame Proofs.Subs Proofs.PoolInv Proofs.Locks
   Proofs.RelGraph Proofs.RelWorld Proofs.RelRefine Proofs.QueryExact Proofs.CacheInv Proofs.BatchMove
   Proofs.BatchExchange Proofs.BatchSetRel Proofs.BatchRemove Proofs.ResetInv Proofs.IlenInv Proofs.BatchCreate
-  Proofs.BatchCached.
+  Proofs.BatchCached Proofs.GhostBase Proofs.CreateWith Proofs.BatchCreateWith.
 
 (** ** The filter behind a filter argument *)
 Definition arg_filter (w : world) (fa : farg) : option fexpr :=
@@ -94,7 +94,10 @@ Definition astep_b (w : world) (A : astate) (o : op) (out : outcome) : astate :=
       | Some f => a_remove_all A (a_sel A f)
       | None => A
       end
-  | OBBatch b _ tg, Ok (VEnts es) => a_add_all A es (mkA (new_mask (b_ids b)) (default ezero tg) [])
+  | OBBatch b _ tg, Ok (VEnts es) =>
+      a_sets_all (a_add_all A es (mkA (new_mask (b_ids b)) (default ezero tg) [])) es (b_comps b)
+  | ONewWith cs, Ok (VEnt e) => a_sets (a_add A e (mkA (new_mask (map fst cs)) ezero [])) e cs
+  | OBNew b tg, Ok (VEnt e) => a_sets (a_add A e (mkA (new_mask (b_ids b)) (default ezero tg) [])) e (b_comps b)
   | _, _ => astep A o out
   end.
 
@@ -105,7 +108,9 @@ Definition op_pre4 (w : world) (A : astate) (o : op) : Prop :=
   | OBatchExchange false _ add _ _ => ids_reg A add /\ returns_ok w o
   | OBatchSetRel false _ _ _ => returns_ok w o
   | OBatchRemove _ => (forall e, e ∈ as_live A -> (egen e < gen_max)%N) /\ returns_ok w o
-  | OBBatch b _ _ => ids_reg A (b_ids b) /\ b_vals b = None /\ returns_ok w o
+  | OBBatch b _ _ => ids_reg A (b_ids b) /\ returns_ok w o
+  | ONewWith cs => ids_reg A (map fst cs)
+  | OBNew b _ => ids_reg A (b_ids b)
   | _ => op_pre3 A o
   end.
 
@@ -130,9 +135,38 @@ Proof.
   assert (Hcore : op_pre3 A o -> astep_b w A o (snd (fst (step w o))) = astep A o (snd (fst (step w o))) ->
             inv3 (res_world (step w o)) (astep_b w A o (snd (fst (step w o))))).
   { intros Hp ->. destruct (full_step w A o HR C Hp) as [H1 H2]. split; [exact H1|split; [exact H2|exact Hil']]. }
+  assert (Hghost : ids_reg A (ghost_ids o) -> step w o = (ghost_of w o, Panic, []) ->
+            inv3 (res_world (step w o)) (astep_b w A o (snd (fst (step w o))))).
+  { intros Hids Hs. rewrite Hs in Hil' |- *. simpl in Hil' |- *.
+    assert (astep_b w A o Panic = A) as ->.
+    { destruct o; simpl; try done; repeat match goal with |- context [match ?b with true => _ | false => _ end] => destruct b end; done. }
+    split; [by apply ghost_R|]. split; [|done].
+    pose proof HR as [[[S G] _ _] Hr _ _]. unfold ids_reg in Hids. rewrite Hr in Hids. by apply ghost_cache_ok. }
+  assert (Hzip : forall b : bspec, Forall (fun p => fst p ∈ b_ids b) (b_comps b)).
+  { intros b. unfold b_comps. destruct (b_vals b) as [vs|]; [|constructor]. apply Forall_forall. intros [id v] Hin.
+    simpl. by apply elem_of_zip_l in Hin. }
   destruct o; try (apply Hcore; [exact Hpre|reflexivity]).
+  - (* ONewWith *)
+    destruct (step_cases w (ONewWith cs)) as [[Hs Hnp]|[_ Hs]]; [|by apply Hghost].
+    rewrite Hs in Hil' |- *. simpl in Hnp, Hil' |- *.
+    assert (Hop : (match cs with [] => op_new w [] [] | _ :: _ => op_new w (map fst cs) cs end) = op_new w (map fst cs) cs) by (by destruct cs).
+    rewrite Hop in *. destruct (op_new w (map fst cs) cs) as [[w' out] evs] eqn:H. simpl in *.
+    destruct (op_new_shape _ _ _ _ _ _ H) as [->|[e ->]]; [done|].
+    assert (Hcs : Forall (fun p => fst p ∈ map fst cs) cs) by (apply Forall_forall; intros p Hp; by apply elem_of_list_fmap_1).
+    destruct (new_with_inv w A (map fst cs) cs w' e evs HR C Hpre Hcs H) as [X1 X2]. done.
+  - (* OBNew *)
+    destruct (step_cases w (OBNew b target)) as [[Hs Hnp]|[_ Hs]]; [|by apply Hghost].
+    rewrite Hs in Hil' |- *. simpl in Hnp, Hil' |- *. unfold op_builder_new in *.
+    destruct target as [tg|]; simpl.
+    + destruct (b_rel b) as [rid|]; [|done].
+      destruct (op_new_target w rid tg (b_ids b) (b_comps b)) as [[w' out] evs] eqn:H. simpl in *.
+      destruct (op_new_target_shape _ _ _ _ _ _ _ _ H) as [->|[e ->]]; [done|].
+      destruct (new_target_with_inv w A rid tg (b_ids b) (b_comps b) w' e evs HR C Hpre (Hzip b) H) as [X1 X2]. done.
+    + destruct (op_new w (b_ids b) (b_comps b)) as [[w' out] evs] eqn:H. simpl in *.
+      destruct (op_new_shape _ _ _ _ _ _ H) as [->|[e ->]]; [done|].
+      destruct (new_with_inv w A (b_ids b) (b_comps b) w' e evs HR C Hpre (Hzip b) H) as [X1 X2]. done.
   - (* OBBatch *)
-    destruct Hpre as (Hids & Hv & [v Hok]).
+    destruct Hpre as (Hids & [v Hok]).
     assert (Hs : step w (OBBatch b count target) = step0 w (OBBatch b count target))
       by (apply step_not_panic; rewrite <- step_out_eq, Hok; done).
     rewrite Hs in Hok, Hil' |- *. clear Hs. simpl in Hok, Hil' |- *.
@@ -141,7 +175,7 @@ Proof.
     { unfold op_new_batch in H. destruct (new_entities_nn w count b target) as [[[[w4 tid] start] es0]|]; [|done].
       destruct (table_mask_rel w4 tid). injection H as _ <- _. by eexists. }
     destruct Hes as [es ->].
-    destruct (batch_new_refines w A count b target w' es evs HR C Hil Hids Hv H) as (_ & _ & _ & HR' & C' & _). done.
+    destruct (batch_new_with_refines w A count b target w' es evs HR C Hil Hids H) as (_ & _ & _ & HR' & C' & _). done.
   - (* OBatchExchange *)
     destruct q; [destruct Hpre|].
     destruct Hpre as (Hids & [v Hok]). simpl in Hok, Hil' |- *.
@@ -256,5 +290,34 @@ Corollary demo_bh_refines :
   inv3 (run (world_init 2 2 64) demo_bh_ops) (arun4 (world_init 2 2 64) a_init demo_bh_ops).
 Proof.
   apply batch_history; [|exact demo_bh_pre].
+  split; [apply R_init; lia|]. split; [apply cache_ok_init|apply ilen_init].
+Qed.
+
+(** Non-vacuity with component values: NewEntityWith, NewBatch and Builder.New (with target)
+    of value builders inside a history; the abstract store holds the written values. *)
+Definition demo_bh_vals_ops : list op := demo_cached_ops ++
+  [ONewWith [(0, 5%Z); (2, 7%Z)];
+   OBBatch (mkB [0; 2] (Some [9%Z; 4%Z]) None) 2 None;
+   OBNew (mkB [0; 1] (Some [3%Z; 0%Z]) (Some 1)) (Some (mkE 1 0))].
+Example demo_bh_vals_pre : pre_run4 (world_init 2 2 64) a_init demo_bh_vals_ops.
+Proof.
+  unfold demo_bh_vals_ops, demo_cached_ops. cbn [app pre_run4].
+  repeat (split; [vm_compute; repeat split; try (repeat (apply List.Forall_cons; [simpl; lia|]); apply List.Forall_nil); try reflexivity;
+      try (by eexists); repeat (first [apply elem_of_list_here | apply elem_of_list_further])|]).
+  exact I.
+Qed.
+Example demo_bh_vals_result :
+  let A := arun4 (world_init 2 2 64) a_init demo_bh_vals_ops in
+  option_map (fun a => aval a 0) (assoc_get (mkE 6 0) (as_ents A)) = Some 5%Z /\
+  option_map (fun a => aval a 2) (assoc_get (mkE 6 0) (as_ents A)) = Some 7%Z /\
+  option_map (fun a => aval a 0) (assoc_get (mkE 8 0) (as_ents A)) = Some 9%Z /\
+  option_map (fun a => aval a 2) (assoc_get (mkE 8 0) (as_ents A)) = Some 4%Z /\
+  option_map (fun a => aval a 0) (assoc_get (mkE 9 0) (as_ents A)) = Some 3%Z /\
+  option_map a_target (assoc_get (mkE 9 0) (as_ents A)) = Some (mkE 1 0).
+Proof. vm_compute. done. Qed.
+Corollary demo_bh_vals_refines :
+  inv3 (run (world_init 2 2 64) demo_bh_vals_ops) (arun4 (world_init 2 2 64) a_init demo_bh_vals_ops).
+Proof.
+  apply batch_history; [|exact demo_bh_vals_pre].
   split; [apply R_init; lia|]. split; [apply cache_ok_init|apply ilen_init].
 Qed.
